@@ -46,7 +46,8 @@ def method_cases(gx: GXM.GX) -> List[Tuple[str, str, Any]]:
 
 
 def follows_for(gx, method, nt_name, prod) -> List[tuple]:
-    f2 = {t for t in gx.g.follow2[nt_name] if t[0] not in prod.no_follow}
+    base = nt_name.split("[typedef-name]")[0] if nt_name.endswith("[typedef-name]") else nt_name
+    f2 = {t for t in gx.g.follow2[base] if t[0] not in prod.no_follow}
     reps = gx.method_follow_reps(method, f2)
     if not reps or nt_name in getattr(gx.g, "eof_ok", ()):
         reps = reps + [()]
@@ -74,7 +75,7 @@ def run_case(item, _retry=False) -> dict:
         out["missing"] = True
         return out
     for p in nt.prods[pidx:pidx + 1]:
-        rec = dict(label=p.label, note=p.note, runs=0, ok=0, fails=[], term=[], coord=[], scope=[], cost=[], notes=[], samples=[])
+        rec = dict(label=p.label, note=p.note, runs=0, ok=0, fails=[], term=[], coord=[], scope=[], cost=[], attrs=[], notes=[], samples=[])
         fols = {id(fs): follows_for(gx, method, nt_name, p) for fs in [p]}[id(p)]
         per = max(600 if _TIER == "quick" else 6000, BUDGET[_TIER] // max(1, len(p.flat) * len(fols))) * (12 if _retry else 1)
         depths = (1, 2) if method in SCOPE_SENSITIVE else (1,)
@@ -119,6 +120,9 @@ def run_case(item, _retry=False) -> dict:
                             d = shared_node_diff(gx, oc)
                         if d:
                             (rec["coord"] if ".coord" in d.split(":")[0] else rec["term"]).append((d, text, list(fol)))
+                        ad = attr_node_diff(gx, oc)
+                        if ad:
+                            rec["attrs"].append((ad, text, list(fol)))
                         cd = cost_diff(gx, method, oc)
                         if cd:
                             rec["cost"].append((cd, text, list(fol)))
@@ -218,6 +222,42 @@ def shared_node_diff(gx, oc):
             return f"result: the {type(v).__name__} node is the very object returned inside the result of an earlier invocation (shared node)"
         _SEEN_NODES[k] = (v, oc.run)
     return None
+
+
+def attr_node_diff(gx, oc):
+    """C14 (show prints one line per node): a field listed in attr_names holds plain values, never a node or a list
+    containing a node - checked on every node the invocation builds."""
+    A = gx.c_ast
+    seen = set()
+
+    def walk(v, depth=0):
+        if depth > 10 or id(v) in seen:
+            return None
+        seen.add(id(v))
+        if isinstance(v, A.Node) and not isinstance(v, gx.Opaque):
+            for an in type(v).attr_names:
+                x = getattr(v, an)
+                items = x if isinstance(x, (list, tuple)) else [x]
+                for it in items:
+                    if isinstance(it, A.Node):
+                        return f"{type(v).__name__}.{an} (an attr_names field) holds a {type(it).__name__} node"
+            for s in type(v).__slots__:
+                if s not in ("coord", "__weakref__") and s not in type(v).attr_names:
+                    r = walk(getattr(v, s), depth + 1)
+                    if r:
+                        return r
+        elif isinstance(v, (list, tuple)):
+            for x in v:
+                r = walk(x, depth + 1)
+                if r:
+                    return r
+        elif isinstance(v, dict):
+            for x in v.values():
+                r = walk(x, depth + 1)
+                if r:
+                    return r
+        return None
+    return walk(oc.result)
 
 
 MAX_UNDONE_OWN = 2  # a speculative look-ahead may take back at most this many tokens of its own
@@ -396,9 +436,13 @@ def to_obligations(gx, recs: List[dict], families: List[str], prefix: str) -> co
                     bad = p["scope"]
                 elif fam == "cost":
                     bad = p["cost"]
+                elif fam == "attrs":
+                    bad = p["attrs"]
                 else:
                     raise ValueError(fam)
                 name = f"{prefix}/{fam}/{base}"
+                if bad and fam == "attrs":
+                    name += "/" + bad[0][0].split(" ")[0]   # the (class.field) that holds a node
                 if bad:
                     if fam in ("accept", "rte"):
                         kind, detail, text, fol, wit = bad[0]
